@@ -205,45 +205,7 @@ func scenarioC19(c *RunCtx) {
 	// another generation marked solved, a truncated trial). The reference recomputes from the edited record.
 	if len(exp.Trials) > 0 && t.Chance("record.surgery", 1, 3) {
 		c.Count("probe.record_surgery")
-		for k := t.Range("surgery.ops", 1, 3); k > 0; k-- {
-			ti := t.Draw("surgery.trial", len(exp.Trials))
-			tr := &exp.Trials[ti]
-			n := len(tr.Generations)
-			if n == 0 {
-				continue
-			}
-			switch t.Draw("surgery.kind", 5) {
-			case 0: // most recent first
-				for i, j := 0, n-1; i < j; i, j = i+1, j-1 {
-					tr.Generations[i], tr.Generations[j] = tr.Generations[j], tr.Generations[i]
-				}
-				surgery += fmt.Sprintf(" reverse(trial %d)", ti)
-			case 1: // shuffled
-				rng := t.Sub("surgery.shuffle")
-				for i := n - 1; i > 0; i-- {
-					j := rng.Intn(i + 1)
-					tr.Generations[i], tr.Generations[j] = tr.Generations[j], tr.Generations[i]
-				}
-				surgery += fmt.Sprintf(" shuffle(trial %d)", ti)
-			case 2: // one more, unsolved, generation recorded after the last one
-				g := tr.Generations[t.Draw("surgery.src", n)]
-				g.Solved, g.WinnerNodes, g.WinnerGenes, g.WinnerEvals = false, 0, 0, 0
-				g.Id = n
-				tr.Generations = append(tr.Generations, g)
-				surgery += fmt.Sprintf(" append-unsolved(trial %d)", ti)
-			case 3: // another generation marked solved
-				gi := t.Draw("surgery.gen", n)
-				g := &tr.Generations[gi]
-				if g.Champion != nil {
-					g.Solved = true
-					g.WinnerNodes, g.WinnerGenes, g.WinnerEvals = 3+t.Draw("surgery.wn", 9), 2+t.Draw("surgery.wg", 9), 10+t.Draw("surgery.we", 500)
-					surgery += fmt.Sprintf(" mark-solved(trial %d generation #%d)", ti, gi)
-				}
-			case 4: // truncated
-				tr.Generations = tr.Generations[:t.Draw("surgery.cut", n)]
-				surgery += fmt.Sprintf(" truncate(trial %d)", ti)
-			}
-		}
+		surgery = RecordSurgery(t, exp)
 		c.Op("record surgery:%s", surgery)
 	}
 	ctx := func() string { return "experiment: " + s.Describe() + " record surgery:[" + surgery + "]" }
@@ -495,4 +457,52 @@ func checkAggregates(c *RunCtx, exp *experiment.Experiment, ctx func() string) {
 			c.Fail("aggregate:BestComplexity", "BestComplexity()[%d] = %v is not nodes+links of a best champion's phenotype\n%s", ti, gotBestCx[ti], ctx())
 		}
 	}
+}
+
+// RecordSurgery edits an experiment record in place the way a user of the public types can (generations kept
+// most-recent-first or shuffled, an extra unsolved generation after the last one, another generation marked solved, a
+// truncated trial) and returns a description. The time stamps travel with the generations, so they no longer increase
+// along the slice.
+func RecordSurgery(t *Tape, exp *experiment.Experiment) string {
+	surgery := ""
+	for k := t.Range("surgery.ops", 1, 3); k > 0; k-- {
+		ti := t.Draw("surgery.trial", len(exp.Trials))
+		tr := &exp.Trials[ti]
+		n := len(tr.Generations)
+		if n == 0 {
+			continue
+		}
+		switch t.Draw("surgery.kind", 5) {
+		case 0: // most recent first
+			for i, j := 0, n-1; i < j; i, j = i+1, j-1 {
+				tr.Generations[i], tr.Generations[j] = tr.Generations[j], tr.Generations[i]
+			}
+			surgery += fmt.Sprintf(" reverse(trial %d)", ti)
+		case 1: // shuffled
+			rng := t.Sub("surgery.shuffle")
+			for i := n - 1; i > 0; i-- {
+				j := rng.Intn(i + 1)
+				tr.Generations[i], tr.Generations[j] = tr.Generations[j], tr.Generations[i]
+			}
+			surgery += fmt.Sprintf(" shuffle(trial %d)", ti)
+		case 2: // one more, unsolved, generation recorded after the last one
+			g := tr.Generations[t.Draw("surgery.src", n)]
+			g.Solved, g.WinnerNodes, g.WinnerGenes, g.WinnerEvals = false, 0, 0, 0
+			g.Id = n
+			tr.Generations = append(tr.Generations, g)
+			surgery += fmt.Sprintf(" append-unsolved(trial %d)", ti)
+		case 3: // another generation marked solved
+			gi := t.Draw("surgery.gen", n)
+			g := &tr.Generations[gi]
+			if g.Champion != nil {
+				g.Solved = true
+				g.WinnerNodes, g.WinnerGenes, g.WinnerEvals = 3+t.Draw("surgery.wn", 9), 2+t.Draw("surgery.wg", 9), 10+t.Draw("surgery.we", 500)
+				surgery += fmt.Sprintf(" mark-solved(trial %d generation #%d)", ti, gi)
+			}
+		case 4: // truncated
+			tr.Generations = tr.Generations[:t.Draw("surgery.cut", n)]
+			surgery += fmt.Sprintf(" truncate(trial %d)", ti)
+		}
+	}
+	return surgery
 }
